@@ -90,6 +90,9 @@ pub fn replay_case(idx: usize, c: &Value, rep: &mut Report, perturb: usize) {
             "b" => floats(&pb[..n2], 1, unit),
             "ka" => floats(&pa[..n1], k, unit),
             "nka" => floats(&pa[..n1], -k, unit),
+            // a far from the origin, and its near-duplicate (first coordinate one unit further): Feature!Off / Off1
+            "fa" => floats(&pa[..n1].iter().map(|x| x + 1000).collect::<Vec<_>>(), 1, unit),
+            "fa1" => floats(&pa[..n1].iter().enumerate().map(|(i, x)| x + 1000 + if i == 0 { 1 } else { 0 }).collect::<Vec<_>>(), 1, unit),
             o => panic!("vector name {}", o),
         }
     };
